@@ -24,17 +24,29 @@ def evStr : Ev → String
   | Ev.run j t cur => s!"run j{j} t{t} cur={b01 cur}"
   | Ev.cancel j t => s!"cancel j{j} t{t}"
   | Ev.value j t => s!"value j{j} t{t}"
+  | Ev.flagBlock t f => s!"s {t} flag-block f{f}"
+  | Ev.flagSet f t => s!"flag-set f{f} t{t}"
   | Ev.stopBegin t => s!"stop-begin t{t}"
   | Ev.stopEnd t => s!"stop-end t{t}"
   | Ev.destroyBegin t => s!"destroy-begin t{t}"
   | Ev.destroyed t => s!"destroyed t{t}"
   | Ev.destroySkip t => s!"destroy-skip t{t}"
 
+/-- prims: `s` stop, `f`/`d` nested run / run_detached, `D` delete the pool, `x` closure destructor deletes the pool,
+`w<digit>` wait for event, `e<digit>` signal event, `r` react to a cancellation by calling the pool -/
+def parsePrimList : List Char → List Prim
+  | [] => []
+  | 'w' :: d :: r => Prim.wait (d.toNat - '0'.toNat) :: parsePrimList r
+  | 'e' :: d :: r => Prim.set (d.toNat - '0'.toNat) :: parsePrimList r
+  | 's' :: r => Prim.stop :: parsePrimList r
+  | 'f' :: r => Prim.subFn :: parsePrimList r
+  | 'd' :: r => Prim.subDet :: parsePrimList r
+  | 'D' :: r => Prim.destroy :: parsePrimList r
+  | 'r' :: r => Prim.react :: parsePrimList r
+  | _ :: r => parsePrimList r
+
 def parsePrims (w : String) : List Prim × Bool :=
-  (w.toList.filterMap (fun ch => match ch with
-      | 's' => some Prim.stop | 'f' => some Prim.subFn | 'd' => some Prim.subDet | 'D' => some Prim.destroy
-      | _ => none),
-   w.toList.contains 'x')
+  (parsePrimList w.toList, w.toList.contains 'x')
 
 def parseOp (w : String) : Option Act :=
   if w == "stop" then some Act.stop
